@@ -18,7 +18,8 @@ def penc(comps):
 
 
 def abs_comps(path_bytes):
-    return tuple(c for c in path_bytes.split(b"/") if c)
+    # as Path::components(): repeated separators, a trailing separator and '.' components do not count
+    return tuple(c for c in path_bytes.split(b"/") if c and c != b".")
 
 
 class RunResult:
@@ -92,6 +93,17 @@ def run_in_tree(w, tree, rr, plan=None, sched=None, timeout=120, scans_override=
         spec.append("torrent " + raw.hex())
     scans = scans_override if scans_override is not None else [os.path.join(btree, *s) for s in w.scans]
     export = export_override if export_override is not None else os.path.join(btree, *(getattr(w, "export_arg", None) or w.export))
+    spell = w.notes.get("spell") if (scans_override is None and export_override is None) else None
+    if spell:
+        # the same directories under another spelling: a trailing separator, a '.' component, a doubled separator
+        def respell(p, k):
+            if spell == "slash":
+                return p + b"/"
+            parts = p.split(b"/")
+            j = 1 + (k % max(1, len(parts) - 1))
+            return b"/".join(parts[:j] + ([b"."] if spell == "dot" else [b""]) + parts[j:])
+        scans = [respell(s, k) for k, s in enumerate(scans)]
+        export = respell(export, len(scans))
     rr.scans, rr.export = scans, export
     rr.rewrites = []
     for arg in [export] + list(scans):
